@@ -21,8 +21,9 @@ TRUSTED = [
     "axioms: at most propext, Classical.choice, Quot.sound (audited per theorem on every run)",
     "tools/props/c11.py translate(): C++ if-chain of early_stopping_t::done -> NanoVerif/Gen/EarlyStopping.lean (regenerated "
     "on every run; the theorems are stated over the generated definition)",
-    "hand-written round-loop skeleton NanoVerif/Model/Boost.lean of gboost fit (model.cpp) — tied to the code only by the "
-    "fit-level statistics recomputation (oracle), not by a differential run",
+    "hand-written round-loop skeleton NanoVerif/Model/Boost.lean of gboost fit (model.cpp, result.cpp) — tied to the code by "
+    "textual anchors of the mirrored statements (static_checks) and by the fit-level statistics recomputation (oracle), not "
+    "by a differential run",
     "harness/c11.cpp, the python history oracle and statistics recomputation in tools/props/c11.py; g++/libstdc++/Eigen",
 ]
 ASSUMPTIONS = [
@@ -36,11 +37,11 @@ ASSUMPTIONS = [
 ]
 RULE = ("early stopping: exhaustive call histories over the alphabet {0, eps/2, eps, 2eps, 1} for the validation error x one "
         "training-error crossing position (or none; the non-crossing training error sits exactly on eps) x patience 1..4 with "
-        "validation samples, all 2^L training patterns without (quick: L<=6, thorough: L<=7 and a seeded tenth of L=8), eps in "
+        "validation samples, all 2^L training patterns without (quick: L<=6, thorough: L<=7 and a seeded twentieth of L=8), eps in "
         "{1e-6, 2^-10}; random longer histories with arbitrary values, arbitrary learner counts and non-finite errors; "
         "full fits of gboost and linear models on random small datasets with every reported statistic recomputed from the stored "
         "models. A history is non-trivial when it contains an accepted and a rejected call (judged by the python oracle's replay); "
-        "a fit when it has >= 2 folds and >= 1 weak learner / non-zero weight; distinct by op text")
+        "every fit has >= 2 folds and is counted; distinct by op text")
 FLAVOUR = {"quick": "plain", "thorough": "asan"}
 EXHAUSTIVE = {"quick": True, "thorough": True}
 RTOL = 0.0
@@ -362,10 +363,10 @@ def gen_es(rng, tier):
                 k += 1
                 ops.append(f"es a {f2h(EPS_LIST[k % 2])} {pat} {1 + k % 2} 0 {w}")
     if tier == "thorough":
-        # a seeded tenth of the length-8 layer
+        # a seeded twentieth of the length-8 layer
         syms = "01234"
         for vs in itertools.product(syms, repeat=8):
-            if rng.below(10) != 0:
+            if rng.below(20) != 0:
                 continue
             base = "".join(vs)
             for p in range(-1, 8):
@@ -425,7 +426,7 @@ def _task_loss(rng):
 
 def gen_fit(rng, tier):
     ops = []
-    for _ in range(30 if tier == "quick" else 120):
+    for _ in range(30 if tier == "quick" else 40):
         task, loss = _task_loss(rng)
         samples = rng.range(24, 90)
         d, ncat = rng.range(1, 4), rng.range(0, 2)
@@ -440,7 +441,7 @@ def gen_fit(rng, tier):
             rng.choice(["gboost", "gboost", "tboost"]), shrink,
             rng.choice(["off", "off", "subsample", "bootstrap", "wei_loss_bootstrap", "wei_grad_bootstrap"]),
             ",".join(protos), f2h(rng.choice([0.0, 0.05, 0.3, 1.0])), rng.choice([10, 16, 100])))
-    for _ in range(20 if tier == "quick" else 80):
+    for _ in range(20 if tier == "quick" else 24):
         task, loss = _task_loss(rng)
         smooth = loss in ("mse", "cauchy", "s-classnll", "s-logistic", "s-exponential", "s-squared-hinge")
         model = rng.choice(["ordinary", "ordinary", "lasso", "ridge", "elastic_net"])
@@ -480,15 +481,24 @@ def decode_history(op):
     return eps, pat, ntrain, nvalid, calls
 
 
-def expected_history(eps, pat, nvalid, calls):
+def mean_of(x, count):
+    acc = 0.0
+    for _ in range(count):
+        acc += x
+    return acc / max(count, 1)
+
+
+def expected_history(eps, pat, nvalid, calls, ntrain=1):
     """answers, reported round / value / index of the reported call (0 = none yet), and whether an accepted and a
     rejected validation improvement occurred"""
     rep_round, rep_value, rep_call = 0, DBL_MAX, 0      # nothing accepted yet: round 0, value DBL_MAX
     answers = []
     seen_acc = seen_rej = False
     for k, (train, valid, learners) in enumerate(calls):
-        if nvalid == 0:
-            valid = 0.0                                   # the mean error over no samples
+        # the monitor's inputs are the MEAN errors over the samples (every sample carries the same error here; the mean of
+        # 1, 2 or 4 equal finite values is that value, but e.g. 4 x DBL_MAX overflows); the mean over no samples is 0
+        train = mean_of(train, ntrain)
+        valid = mean_of(valid, nvalid)
         small_train = train < eps
         improvement = valid < rep_value - eps             # larger than epsilon w.r.t. the last accepted one
         accepted = small_train or improvement or nvalid == 0
@@ -506,7 +516,7 @@ def expected_history(eps, pat, nvalid, calls):
 
 def oracle_es(op, res):
     eps, pat, ntrain, nvalid, calls = decode_history(op)
-    answers, rnd, val, call, _ = expected_history(eps, pat, nvalid, calls)
+    answers, rnd, val, call, _ = expected_history(eps, pat, nvalid, calls, ntrain)
     r = res.split()
     if r[0] != "ok":
         return f"implementation did not answer ok: {res[:80]}"
@@ -668,7 +678,7 @@ def oracle_fit(op, res):
                                 f"({nlearners} weak learners) gives {w!r}")
                 # ... and it is the round of the last accepted improvement of the error history, not stopped before
                 calls = [(st[0], st[2], k) for k, st in enumerate(stat)]
-                answers, rnd, _, _, _ = expected_history(a["eps"], a["patience"], len(vd_e), calls)
+                answers, rnd, _, _, _ = expected_history(a["eps"], a["patience"], min(len(vd_e), 1), calls)
                 if rnd != rows - 1:
                     return (f"{where}: the fold keeps round {rows - 1} but the last accepted improvement of its error history "
                             f"is round {rnd}")
@@ -714,7 +724,7 @@ def model_skip(op):
 def nontrivial(op):
     if op.startswith("es "):
         eps, pat, ntrain, nvalid, calls = decode_history(op)
-        return expected_history(eps, pat, nvalid, calls)[4]
+        return expected_history(eps, pat, nvalid, calls, ntrain)[4]
     return True
 
 
@@ -756,3 +766,53 @@ def shrink_candidates(op):
         for i in range(L):
             rest = calls[:i] + calls[i + 1:]
             yield " ".join(t[:6] + [str(L - 1)] + [x for c in rest for x in c])
+
+
+# ---------------------------------------------------------------------------------------------------------
+# the hand-written round-loop skeleton (Model/Boost.lean) has no differential run of its own: the statements of the source
+# it mirrors are pinned textually (whitespace-insensitive); an edit of one of them is reported as `static` and triggers
+# the widened search
+
+ANCHORS = {
+    "src/gboost/model.cpp": [
+        ("monitor constructed on the bias-only values", "auto optimum = early_stopping_t{values};", 1),
+        ("done() on the bias-only model and after every appended learner",
+         "if (optimum.done(values, train_samples, valid_samples, result.m_wlearners, epsilon, patience))", 2),
+        ("no rounds when the first call stops", "max_rounds = 0;", 1),
+        ("round loop", "for (tensor_size_t round = 0; round < max_rounds; ++round)", 1),
+        ("no-learner exit", "if (!best_wlearner) { break; }", 1),
+        ("learner appended (scaling failure: without a done() call; regular round: before done())",
+         "result.update(round + 1, shrinkage_ratio, gstate, std::move(best_wlearner));", 2),
+        ("the fold keeps optimum.round() learners", "result.done(static_cast<tensor_size_t>(optimum.round()));", 1),
+        ("reported per-sample values are the monitor's snapshot",
+         "return std::make_tuple(std::move(result), selected(optimum.values(), train_samples), selected(optimum.values(), valid_samples));", 1),
+        ("fold averaging: biases summed", "m_bias.vector() += pgboost->m_bias.vector();", 1),
+        ("fold averaging: 1 / folds", "const auto denom = 1.0 / static_cast<scalar_t>(folds);", 1),
+        ("fold averaging: bias scaled", "m_bias.vector() *= denom;", 1),
+        ("fold averaging: learners scaled", "wlearner->scale(vdenom);", 1),
+        ("prediction starts from the bias", "outputs.reshape(samples.size(), -1).matrix().rowwise() = m_bias.vector().transpose();", 1),
+    ],
+    "src/gboost/result.cpp": [
+        ("result_t::done erases [round, end)", "m_wlearners.erase(m_wlearners.begin() + optimum_round, m_wlearners.end());", 1),
+        ("result_t::done keeps rounds 0..round of the statistics", "m_statistics = m_statistics.slice(0, optimum_round + 1);", 1),
+        ("learner appended by update", "m_wlearners.emplace_back(std::move(wlearner));", 1),
+    ],
+    "src/gboost/util.cpp": [
+        ("mean over max(size, 1)", "const auto denom = static_cast<scalar_t>(std::max(samples.size(), tensor_size_t{1}));", 2),
+    ],
+}
+
+
+def static_checks():
+    bad = []
+    for rel, anchors in ANCHORS.items():
+        try:
+            text = re.sub(r"\s+", "", _strip_comments(open(os.path.join(vlib.REPO, rel)).read()))
+        except OSError as ex:
+            bad.append(f"{rel}: {ex}")
+            continue
+        for what, stmt, count in anchors:
+            got = text.count(re.sub(r"\s+", "", stmt))
+            if got != count:
+                bad.append(f"{rel}: `{stmt}` ({what}) occurs {got} time(s), the model Model/Boost.lean mirrors {count}")
+    return bad
